@@ -43,26 +43,26 @@ func init() {
 
 // line shapes of the text alphabet
 const (
-	shFunc       = iota // TEXT main.fN(SB) /src/f.go
-	shFuncSys           // TEXT syscall.Syscall(SB) /src/asm.s      (a syscall wrapper: raw sites inside are not sites)
-	shFuncEmpty         // "TEXT "
-	shFuncBare          // "TEXT"
-	shFuncGeneric       // TEXT main.g[go.shape.struct { F int }](SB) /src/f.go   (symbol contains blanks)
-	shRaw               // 4-field raw syscall instruction of this parser
-	shRawOther          // the other parser's raw instruction (neutral here)
-	shRawBare           // "SYSCALL" / "INT $0x80" alone on the line
-	shLoadAX            // MOVQ $0x3b, AX
-	shLoadBP            // MOVL $0x1, BP
-	shLoadStack         // MOVL $1, 0(SP)
-	shLoadNeg           // MOVQ $-1, AX
-	shLoadBad           // MOVQ $zz, AX
-	shLoadUnknown       // MOVQ $999999, AX   (not in any table)
-	shXor               // XORL AX, AX
-	shCall              // 4-field CALL syscall.Syscall(SB)
-	shCallBare          // "CALL syscall.Syscall6(SB)" without location fields
-	shNeutral           // NOPL
-	shEmpty             // empty line
-	shLong              // 70000-byte line
+	shFunc        = iota // TEXT main.fN(SB) /src/f.go
+	shFuncSys            // TEXT syscall.Syscall(SB) /src/asm.s      (a syscall wrapper: raw sites inside are not sites)
+	shFuncEmpty          // "TEXT "
+	shFuncBare           // "TEXT"
+	shFuncGeneric        // TEXT main.g[go.shape.struct { F int }](SB) /src/f.go   (symbol contains blanks)
+	shRaw                // 4-field raw syscall instruction of this parser
+	shRawOther           // the other parser's raw instruction (neutral here)
+	shRawBare            // "SYSCALL" / "INT $0x80" alone on the line
+	shLoadAX             // MOVQ $0x3b, AX
+	shLoadBP             // MOVL $0x1, BP
+	shLoadStack          // MOVL $1, 0(SP)
+	shLoadNeg            // MOVQ $-1, AX
+	shLoadBad            // MOVQ $zz, AX
+	shLoadUnknown        // MOVQ $999999, AX   (not in any table)
+	shXor                // XORL AX, AX
+	shCall               // 4-field CALL syscall.Syscall(SB)
+	shCallBare           // "CALL syscall.Syscall6(SB)" without location fields
+	shNeutral            // NOPL
+	shEmpty              // empty line
+	shLong               // 70000-byte line
 	shCount
 )
 
